@@ -1,9 +1,244 @@
 package main
 
+// Independent Go decoder of a router advertisement (written from RFC 4861 4.2/4.6, RFC 4191 2.3,
+// RFC 8106 5.1/5.2; shares nothing with the library or with the Coq spec) and the comparison of
+// what it reads with the router record the handler learned.  Disagreements are `viol` records;
+// the three classes the library's data structure cannot represent carry their recorded keys.
+
 import (
+	"bytes"
+	"encoding/binary"
+	"fmt"
+	"strings"
+	"time"
+
 	"github.com/irai/packet/handlers/icmp_spoofer"
 	"pvharness/lib"
 )
 
-// oracleRA: independent Go decoder of the RA against the learned router record (filled in below).
-func oracleRA(r *lib.Run, msg []byte, rt icmp_spoofer.Router) {}
+type oPrefix struct {
+	pl             int
+	onlink, auto   bool
+	valid, pref    uint32
+	prefix         []byte
+}
+type oRoute struct {
+	pl, prf int
+	life    uint32
+	prefix  []byte
+}
+type oRDNSS struct {
+	life    uint32
+	servers [][]byte
+}
+type oDNSSL struct {
+	life  uint32
+	names []string
+}
+type oRA struct {
+	hop, prf       int
+	managed, other bool
+	life           uint16
+	reach, retrans uint32
+	slla           []byte
+	mtu            uint32
+	hasMTU         bool
+	prefixes       []oPrefix
+	routes         []oRoute
+	rdnss          []oRDNSS
+	dnssl          []oDNSSL
+}
+
+func maskBits(a []byte, pl int) []byte {
+	out := make([]byte, 16)
+	for bit := 0; bit < pl && bit < 128; bit++ {
+		if bit/8 < len(a) && a[bit/8]&(0x80>>uint(bit%8)) != 0 {
+			out[bit/8] |= 0x80 >> uint(bit%8)
+		}
+	}
+	return out
+}
+
+// decodeRA returns ok=false when the advertisement is not well formed by the RFCs' own rules.
+func decodeRA(m []byte) (ra oRA, ok bool) {
+	if len(m) < 16 {
+		return ra, false
+	}
+	ra.hop = int(m[4])
+	ra.managed, ra.other = m[5]>>7&1 == 1, m[5]>>6&1 == 1
+	ra.prf = int(m[5] >> 3 & 3)
+	ra.life = binary.BigEndian.Uint16(m[6:])
+	ra.reach, ra.retrans = binary.BigEndian.Uint32(m[8:]), binary.BigEndian.Uint32(m[12:])
+	o := m[16:]
+	for len(o) > 0 {
+		if len(o) < 2 || o[1] == 0 || int(o[1])*8 > len(o) {
+			return ra, false
+		}
+		t, l := o[0], int(o[1])
+		v := o[2 : l*8]
+		o = o[l*8:]
+		switch t {
+		case 1:
+			if l != 1 {
+				return ra, false
+			}
+			ra.slla = append([]byte{}, v...)
+		case 2:
+			if l != 1 {
+				return ra, false
+			}
+		case 5:
+			if l != 1 {
+				return ra, false
+			}
+			ra.mtu, ra.hasMTU = binary.BigEndian.Uint32(v[2:]), true
+		case 3:
+			if l != 4 || v[0] > 128 {
+				return ra, false
+			}
+			ra.prefixes = append(ra.prefixes, oPrefix{pl: int(v[0]), onlink: v[1]&0x80 != 0, auto: v[1]&0x40 != 0,
+				valid: binary.BigEndian.Uint32(v[2:]), pref: binary.BigEndian.Uint32(v[6:]), prefix: maskBits(v[14:30], int(v[0]))})
+		case 24:
+			pl, prf := int(v[0]), int(v[1]>>3&3)
+			if l > 3 || pl > 128 || (pl > 64 && l != 3) || (pl > 0 && l < 2) || prf == 2 {
+				return ra, false
+			}
+			ra.routes = append(ra.routes, oRoute{pl: pl, prf: prf, life: binary.BigEndian.Uint32(v[2:]), prefix: maskBits(v[6:], pl)})
+		case 25:
+			if l < 3 || l%2 == 0 {
+				return ra, false
+			}
+			r := oRDNSS{life: binary.BigEndian.Uint32(v[2:])}
+			for a := v[6:]; len(a) >= 16; a = a[16:] {
+				r.servers = append(r.servers, a[:16])
+			}
+			ra.rdnss = append(ra.rdnss, r)
+		case 31:
+			if l < 2 {
+				return ra, false
+			}
+			d := oDNSSL{life: binary.BigEndian.Uint32(v[2:])}
+			rest := v[6:]
+			for len(rest) > 0 && rest[0] != 0 {
+				var labels []string
+				for {
+					if len(rest) == 0 {
+						return ra, false // name not terminated inside the option
+					}
+					n := int(rest[0])
+					rest = rest[1:]
+					if n == 0 {
+						break
+					}
+					if n >= len(rest) {
+						return ra, false
+					}
+					lab := rest[:n]
+					for _, c := range lab {
+						if c >= 0x80 || c == '.' || c == ' ' {
+							return ra, false
+						}
+					}
+					labels = append(labels, string(lab))
+					rest = rest[n:]
+				}
+				d.names = append(d.names, strings.Join(labels, "."))
+			}
+			if len(d.names) == 0 {
+				return ra, false
+			}
+			ra.dnssl = append(ra.dnssl, d)
+		}
+	}
+	return ra, true
+}
+
+func oracleRA(r *lib.Run, msg []byte, rt icmp_spoofer.Router) {
+	ra, ok := decodeRA(msg)
+	if !ok {
+		r.Stat("oracle.skipped-malformed", 1)
+		return
+	}
+	r.Stat("oracle.checked", 1)
+	replay := "ra ret " + hx(msg)
+	bad := func(key, what string) { r.Viol(key, what+" (RA "+hx(msg)+")", replay) }
+	sec := func(d time.Duration) uint32 { return uint32(d / time.Second) }
+	if rt.ManagedFlag != ra.managed || rt.OtherCondigFlag != ra.other || int(rt.Preference) != ra.prf || int(rt.CurHopLimit) != ra.hop ||
+		rt.DefaultLifetime != time.Duration(ra.life)*time.Second || uint32(rt.ReacheableTime) != ra.reach || uint32(rt.RetransTimer) != ra.retrans {
+		bad("oracle-hdr", fmt.Sprintf("router header fields differ from the advertisement: %s", showHdr(rt)))
+	}
+	if !bytes.Equal(rt.Options.SourceLLA.MAC, ra.slla) {
+		bad("oracle-slla", "source link-layer address differs: "+hx(rt.Options.SourceLLA.MAC)+" vs "+hx(ra.slla))
+	}
+	wantMAC := ra.slla
+	if len(wantMAC) != 6 {
+		wantMAC = lib.RouterMAC
+	}
+	if !bytes.Equal(rt.Addr.MAC, wantMAC) {
+		bad("oracle-mac", "router MAC differs: "+hx(rt.Addr.MAC)+" vs "+hx(wantMAC))
+	}
+	if rt.MTU != ra.mtu || uint32(rt.Options.MTU) != ra.mtu {
+		bad("oracle-mtu", fmt.Sprintf("MTU differs: Router.MTU=%d Options.MTU=%d advertised=%d", rt.MTU, uint32(rt.Options.MTU), ra.mtu))
+	}
+	pok := len(rt.Prefixes) == len(ra.prefixes)
+	for i := 0; pok && i < len(ra.prefixes); i++ {
+		a, b := rt.Prefixes[i], ra.prefixes[i]
+		pok = int(a.PrefixLength) == b.pl && a.OnLink == b.onlink && a.AutonomousAddressConfiguration == b.auto &&
+			sec(a.ValidLifetime) == b.valid && sec(a.PreferredLifetime) == b.pref && bytes.Equal(a.Prefix, b.prefix)
+	}
+	if !pok {
+		bad("oracle-prefix", "prefix list differs: "+showPfx(rt.Prefixes))
+	}
+	// options that may repeat: the record holds one of each
+	ri := rt.Options.RouteInformation
+	switch {
+	case len(ra.routes) == 0:
+		if ri.Prefix != nil {
+			bad("oracle-route", "route information recorded without a route option")
+		}
+	default:
+		w := ra.routes[len(ra.routes)-1]
+		if int(ri.PrefixLength) != w.pl || int(ri.Preference) != w.prf || sec(ri.RouteLifetime) != w.life || !bytes.Equal(ri.Prefix, w.prefix) {
+			bad("oracle-route", "the last route option is not recorded as advertised: "+showRI(ri)+" "+showRIP(ri))
+		}
+		if len(ra.routes) > 1 {
+			bad("ri-multiple", fmt.Sprintf("%d route information options advertised, one recorded", len(ra.routes)))
+		}
+	}
+	rd := rt.Options.RDNSS
+	switch {
+	case len(ra.rdnss) == 0:
+		if len(rd.Servers) != 0 || rd.Lifetime != 0 {
+			bad("oracle-rdnss", "RDNSS recorded without an RDNSS option")
+		}
+	case len(ra.rdnss) == 1:
+		ok := sec(rd.Lifetime) == ra.rdnss[0].life && len(rd.Servers) == len(ra.rdnss[0].servers)
+		for i := 0; ok && i < len(rd.Servers); i++ {
+			ok = bytes.Equal(rd.Servers[i], ra.rdnss[0].servers[i])
+		}
+		if !ok {
+			bad("oracle-rdnss", "RDNSS option not recorded as advertised: "+showRD(rd))
+		}
+	default:
+		bad("rdnss-multiple", fmt.Sprintf("%d RDNSS options advertised, one lifetime recorded", len(ra.rdnss)))
+	}
+	ds := rt.Options.DNSSearchList
+	switch {
+	case len(ra.dnssl) == 0:
+		if len(ds.DomainNames) != 0 || ds.Lifetime != 0 {
+			bad("oracle-dnssl", "DNSSL recorded without a DNSSL option")
+		}
+	default:
+		w := ra.dnssl[len(ra.dnssl)-1]
+		ok := sec(ds.Lifetime) == w.life && len(ds.DomainNames) == len(w.names)
+		for i := 0; ok && i < len(w.names); i++ {
+			ok = ds.DomainNames[i] == w.names[i]
+		}
+		if !ok {
+			bad("oracle-dnssl", "the last DNSSL option is not recorded as advertised: "+showDS(ds))
+		}
+		if len(ra.dnssl) > 1 {
+			bad("dnssl-multiple", fmt.Sprintf("%d DNSSL options advertised, one recorded", len(ra.dnssl)))
+		}
+	}
+}
